@@ -19,7 +19,7 @@ def dd_runs(chk, w, tier, families, extra=None, module="TraceDD", cfg="TraceDD.c
     for b in range(nb):
         for fam in families:
             tr = os.path.join(w, f"{name}_{fam}_{b}.ndjson")
-            args = ["--seed", SEED * 1000 + b, "--instances", insts or (120 if not thorough else 300), "--per-instance", per or 20, "--family", fam, "--out", tr] + (extra or [])
+            args = ["--seed", SEED * 1000 + b, "--instances", insts or (350 if not thorough else 500), "--per-instance", per or 25, "--family", fam, "--out", tr] + (extra or [])
             run_bin("dd", args)
             batches.append((tr, args))
     total = 0
